@@ -13,7 +13,7 @@
                      flash_pattern whose pattern contains an entry that is itself rejected)
      qval x / zval x := numeric value / int(x) of a Python scalar *)
 From Coq Require Import ZArith QArith Qround List Bool Lia.
-From RV Require Import Base.Wire Base.Num Host.Led Host.RGBLed Proofs.NumP Proofs.LedP Proofs.RGBLedP.
+From RV Require Import Base.Wire Base.Num Host.Led Host.RGBLed Host.RelArgs Proofs.NumP Proofs.LedP Proofs.RGBLedP Proofs.RelArgsP.
 Import ListNotations.
 Import Num.
 Local Open Scope Q_scope.
@@ -194,6 +194,126 @@ Print Assumptions C19_fade_ends_on_target.
 Theorem C19_round_half_even_monotone : forall x y, x <= y -> (py_round x <= py_round y)%Z.
 Proof. exact NumP.py_round_mono. Qed.
 Print Assumptions C19_round_half_even_monotone.
+
+(* ====================================================================== *)
+(* RGBLed: calls whose arguments are derived from the state they meet       *)
+(* (Host/RelArgs.v).  Vocabulary:                                          *)
+(*   cur s i            channel i of the colour shown, as get_color()[i]    *)
+(*   times_ok t         t is an int/bool >= 1       nonneg_num d: a number >= 0 *)
+(*   components_ok r g b  the three colour arguments pass _validate_component *)
+(*   blink_accepts r g b t d := times_ok t && nonneg_num d && components_ok r g b *)
+(*   blink_trace k c d orig := k x [c; sleep d; black; sleep d] ++ [orig]   *)
+(*   fade_accepts s ...  as blink's, plus: steps may be a float exactly when *)
+(*                      the fade takes its one-step shortcut                *)
+(*   resolve_rgb s a    the Python value of a state-relative argument       *)
+(* ====================================================================== *)
+
+(* blink as a total function of (state, arguments): whether it is accepted is decided by the
+   arguments alone - never by how they relate to the colour shown - and an accepted blink
+   leaves the object EXACTLY as it was, having written the original colour last *)
+Theorem C19_rgb_blink_total : forall s r g b t d, Inv_rgb s ->
+  if blink_accepts r g b t d
+  then RGBLed.step s (RGBLed.Blink r g b t d) =
+       (s, blink_trace (Z.to_nat (zval t)) (target_of r g b) (qval d) (RGBLed.color s), Ok RNone)
+  else exists k, RGBLed.step s (RGBLed.Blink r g b t d) = (s, [], Raised k).
+Proof. exact RelArgsP.blink_total. Qed.
+Print Assumptions C19_rgb_blink_total.
+
+Theorem C19_rgb_blink_trace_shape : forall k c d orig,
+  levels (blink_trace k c d orig) = concat (repeat [l3 c; [0; 0; 0]%Z] k) ++ [l3 orig] /\
+  last (levels (blink_trace k c d orig)) [] = l3 orig /\
+  sleeps (blink_trace k c d orig) = repeat d (2 * k).
+Proof. exact RelArgsP.blink_trace_shape. Qed.
+Print Assumptions C19_rgb_blink_trace_shape.
+
+(* no hypothesis on the arguments or on the outcome: after blink(...) - successful or failing -
+   the object is the one before the call; along any history a blink can be deleted *)
+Theorem C19_rgb_blink_state_neutral : forall s r g b t d, Inv_rgb s ->
+  RGBLed.st (RGBLed.step s (RGBLed.Blink r g b t d)) = s.
+Proof. exact RelArgsP.blink_state_neutral. Qed.
+Print Assumptions C19_rgb_blink_state_neutral.
+
+Theorem C19_rgb_blink_history_neutral : forall r0 g0 b0 s0 ops r g b t d,
+  RGBLed.create r0 g0 b0 = inl s0 ->
+  RGBLed.run s0 (ops ++ [RGBLed.Blink r g b t d]) = RGBLed.run s0 ops.
+Proof. exact RelArgsP.blink_history_neutral. Qed.
+Print Assumptions C19_rgb_blink_history_neutral.
+
+(* the case the clause "ends a blink on its original colour" is easiest to get wrong: blinking
+   in the very colour that is shown.  Always accepted, ends lit in that colour. *)
+Theorem C19_rgb_blink_own_colour : forall s t d, Inv_rgb s -> times_ok t = true -> nonneg_num d = true ->
+  RGBLed.step s (RGBLed.Blink (cur s 0) (cur s 1) (cur s 2) t d) =
+    (s, blink_trace (Z.to_nat (zval t)) (RGBLed.color s) (qval d) (RGBLed.color s), Ok RNone).
+Proof. exact RelArgsP.blink_own_colour. Qed.
+Print Assumptions C19_rgb_blink_own_colour.
+
+Theorem C19_rgb_set_color_own_colour : forall s, Inv_rgb s ->
+  RGBLed.step s (RGBLed.SetColor (cur s 0) (cur s 1) (cur s 2)) = (s, [Lvl (l3 (RGBLed.color s))], Ok RNone) /\
+  RGBLed.step s (RGBLed.On (cur s 0) (cur s 1) (cur s 2)) = (s, [Lvl (l3 (RGBLed.color s))], Ok RNone).
+Proof. exact RelArgsP.set_color_own_colour. Qed.
+Print Assumptions C19_rgb_set_color_own_colour.
+
+(* fade as a total function: here the relation between target and colour shown DOES matter *)
+Theorem C19_rgb_fade_total : forall s r g b d n, Inv_rgb s ->
+  if fade_accepts s r g b d n
+  then exists e, RGBLed.step s (RGBLed.Fade r g b d n) =
+                 (mkRgb (RGBLed.pins s) (target_of r g b) (any_on (target_of r g b)), e, Ok RNone)
+  else exists k, RGBLed.step s (RGBLed.Fade r g b d n) = (s, [], Raised k).
+Proof. exact RelArgsP.fade_total. Qed.
+Print Assumptions C19_rgb_fade_total.
+
+Theorem C19_rgb_fade_own_colour : forall s d n, Inv_rgb s -> nonneg_num d = true ->
+  num_le n 0 = Some false ->
+  RGBLed.step s (RGBLed.Fade (cur s 0) (cur s 1) (cur s 2) d n) = (s, [Lvl (l3 (RGBLed.color s))], Ok RNone).
+Proof. exact RelArgsP.fade_own_colour. Qed.
+Print Assumptions C19_rgb_fade_own_colour.
+
+Theorem C19_rgb_fade_float_steps_elsewhere : forall s r g b d q, Inv_rgb s ->
+  fade_shortcut s r g b d = false ->
+  exists k, RGBLed.step s (RGBLed.Fade r g b d (PF q)) = (s, [], Raised k).
+Proof. exact RelArgsP.fade_float_steps_elsewhere. Qed.
+Print Assumptions C19_rgb_fade_float_steps_elsewhere.
+
+(* relative arguments: the int spelling with offset 0 is the current channel; the bool spelling is
+   the same number to every check; the float spelling is refused as a colour in every state; a
+   neighbour is accepted exactly while it stays inside 0..255 *)
+Theorem C19_rgb_relative_arguments : forall s i dz, Inv_rgb s ->
+  resolve_rgb s (CCur i 0 SpInt) = cur s i /\
+  (let v := resolve_rgb s (CCur i dz SpBool) in
+   qval v = inject_Z (ch i (RGBLed.color s) + dz) /\ zval v = (ch i (RGBLed.color s) + dz)%Z /\ is_intlike v = true) /\
+  validate_component (resolve_rgb s (CCur i dz SpFloat)) = Some TypeError /\
+  validate_component (resolve_rgb s (CCur i dz SpInt)) =
+    (if (0 <=? ch i (RGBLed.color s) + dz)%Z && (ch i (RGBLed.color s) + dz <=? 255)%Z then None else Some ValueError).
+Proof. exact RelArgsP.relative_arguments_final. Qed.
+Print Assumptions C19_rgb_relative_arguments.
+
+(* Led: set_brightness with the brightness the Led already has - as an int, as True/False when it
+   is 1/0, or as a float - is accepted and changes nothing *)
+Theorem C19_led_own_brightness : forall s i sp, Inv_led s ->
+  Led.step s (Led.SetBrightness (resolve_led s (CCur i 0 sp))) = (s, [Lvl [Led.bright s]], Ok RNone).
+Proof. exact RelArgsP.led_own_brightness. Qed.
+Print Assumptions C19_led_own_brightness.
+
+(* non-vacuity, and the seeded scenario inside the model: lit in (10,200,30), blink in (10,200,30) *)
+Example C19_rgb_blink_own_colour_nonvacuous :
+  let s := mkRgb (PI 9, PI 10, PI 11) (10, 200, 30)%Z true in
+  Inv_rgb s /\ times_ok (PI 2) = true /\ times_ok (PB true) = true /\ times_ok (PF (2 # 1)) = false /\
+  nonneg_num (PF (5 # 2)) = true /\ nonneg_num (PI (-1)) = false /\ nonneg_num PO = false /\
+  RGBLed.step s (RGBLed.Blink (PI 10) (PI 200) (PI 30) (PI 2) (PF (5 # 2))) =
+    (s, [Lvl [10; 200; 30]%Z; Sleep (5 # 2); Lvl [0; 0; 0]%Z; Sleep (5 # 2);
+         Lvl [10; 200; 30]%Z; Sleep (5 # 2); Lvl [0; 0; 0]%Z; Sleep (5 # 2); Lvl [10; 200; 30]%Z], Ok RNone) /\
+  blink_accepts (PI 10) (PI 200) (PI 30) (PI 2) (PF (5 # 2)) = true /\
+  blink_accepts (PI 10) (PI 200) (PI 256) (PI 2) (PI 5) = false /\
+  fade_accepts s (PI 10) (PI 200) (PI 30) (PI 100) (PF (5 # 2)) = true /\
+  fade_accepts s (PI 10) (PI 200) (PI 31) (PI 100) (PF (5 # 2)) = false /\
+  resolve_rgb s (CCur 1 1 SpInt) = PI 201 /\ resolve_rgb s (CCur 2 (-29) SpBool) = PB true /\
+  resolve_rgb s (CCur 0 0 SpFloat) = PF (10 # 1).
+Proof.
+  cbv zeta. split.
+  - unfold Inv_rgb, chan_ok. cbn. repeat split; try lia; try discriminate.
+  - vm_compute. repeat split.
+Qed.
+Print Assumptions C19_rgb_blink_own_colour_nonvacuous.
 
 (* ====================================================================== *)
 (* non-vacuity: the hypotheses above are satisfiable by non-trivial states *)
